@@ -56,6 +56,8 @@ def run(ctx):
             for vi, v in enumerate((None, 'soft', 'lxml')):
                 if ctx.quick and (i + fi + vi + ctx.seed) % 3 != 0:
                     continue
+                if c['id'] == 'P6' and fam == 'xml':
+                    continue          # XmlDocument has no envelope, hence no headers
                 try:
                     w = c01.World(c, fam, v, poly=c['poly'])
                     obs = w.exchange()
@@ -77,8 +79,8 @@ def run(ctx):
     jobs = []
     for i, c in enumerate(cases):
         n = 0
-        if c['id'] == 'P5':
-            continue                # classes that share a type name across namespaces: dict documents cannot tell them apart
+        if c['id'] in ('P5', 'P6'):
+            continue                # P5: classes that share a type name across namespaces: dict documents cannot tell them apart; P6: SOAP headers
         for fam in c02.FAMS:
             for validator in (None, 'soft'):
                 n += 1
